@@ -34,6 +34,18 @@ TextCases == IF ~Fam("text") THEN {} ELSE
           groups |-> "bytes", agg |-> "mean", unk |-> u, slots |-> chunks[c]] :
             w \in Wraps, g \in BOOLEAN, u \in {"<u>", "<oov>"}, c \in 1..Len(chunks) }
 
+\* special tokens spelled with regular-expression metacharacters ("<|p|>" read as a pattern matches a lone <, p or >;
+\* "p." matches p followed by anything): they never occur in the slot texts, so nothing may be parsed as special
+MetaCases == IF ~Fam("text") THEN {} ELSE
+    LET texts == SetToSeq(SeqsOver(1..8, MaxLen))
+        chunks == Chunks(texts, 200)
+        toks == <<"<p>", "<u>", "<b>", "<e>", "<pad>", "<|p|>", "p.", "[p]", "a+", "(p)">>
+    IN { [kind |-> "byte", special |-> Sp(toks, "<pad>", <<"<b>">>, <<"<e>">>), g |-> g, pad_to |-> 0,
+          groups |-> "bytes", agg |-> "mean", unk |-> "<u>", slots |-> chunks[c]] : g \in BOOLEAN, c \in 1..Len(chunks) }
+       \cup
+       { [kind |-> "char", special |-> Sp(toks, "<pad>", <<"<b>">>, <<"<e>">>), g |-> g, pad_to |-> 0,
+          groups |-> "bytes", agg |-> "mean", unk |-> "<u>", slots |-> chunks[c]] : g \in BOOLEAN, c \in 1..Len(chunks) }
+
 Spell == IF MaxToks >= 4 THEN {"<p>", "<u>", "<pad>", "<e>"} ELSE {"<p>", "<u>", "<pad>"}
 TokLists == IF ~Fam("vocab") THEN {} ELSE {t \in SeqsOver(Spell, MaxToks) : \E k \in 1..Len(t) : t[k] = "<pad>"}
 VocabCasesOf(t) ==
@@ -50,14 +62,16 @@ ByteStrs == UNION {[1..k -> 1..NB] : k \in 2..MaxEntry}
 Tables == IF ~Fam("bpe") THEN {} ELSE {t \in UNION {[1..k -> ByteStrs] : k \in 0..MaxTab} : B!WellFormed(t)}
 \* limits that leave no room for merges, or not even for the 256 bytes and the special tokens (family option LOWMV)
 LowMv == IF "LOWMV" \in DOMAIN IOEnv THEN {1, 64, 255, 256, 257} ELSE {}
+\* limits that are looser than the table needs (family option LOWMV as well)
+HighMv(t) == IF "LOWMV" \in DOMAIN IOEnv THEN {258 + Len(t) + 3, 1000} ELSE {}
 BpeCasesOf(t, texts) ==
     { [kind |-> "bpe", special |-> Sp(<<"<pad>", "<b>">>, "<pad>", w[1], w[2]), g |-> FALSE, pad_to |-> 0,
        groups |-> "bytes", agg |-> "mean", unk |-> "<u>", tabslots |-> t, max_vocab |-> mv, bslots |-> texts] :
          w \in {<< <<>>, <<>> >>, << <<"<b>">>, <<"<pad>">> >>},
-         mv \in {0} \cup {258 + k : k \in 0..Len(t)} \cup LowMv }
+         mv \in {0} \cup {258 + k : k \in 0..Len(t)} \cup LowMv \cup HighMv(t) }
 BpeCases == IF ~Fam("bpe") THEN {} ELSE LET texts == SetToSeq(SeqsOver(0..NB, MaxLen)) IN UNION {BpeCasesOf(t, texts) : t \in Tables}
 
-Cases == TextCases \cup VocabCases \cup BpeCases
+Cases == TextCases \cup MetaCases \cup VocabCases \cup BpeCases
 VARIABLE x
 Init == x = 0 /\ ndJsonSerialize(IOEnv.OUT, SetToSeq(Cases))
 Next == UNCHANGED x
